@@ -517,7 +517,7 @@ func TestVerifC01FreeRunning(t *testing.T) {
 	c := ev.For("C01")
 	c.Rule("free-running: one reader and one writer goroutine per endpoint, all four at once, wire in random-segmentation mode, generated write-size sequences and 0-200 us pauses; oracle: both streams arrive complete and exact, all goroutines finish, no data race (thorough: -race); non-trivial = both directions carry a multi-frame write")
 	rapid.Check(t, func(rt *rapid.T) {
-		br, cls := vfGenBridge(rt, []int{0, 0, 0, 1})
+		br, cls := vfGenBridge(rt, []int{0, 0, 0, 1, 2})
 		legacy := rapid.Bool().Draw(rt, "legacyBridgeLine")
 		sizes := [2][]int{}
 		pauses := [2][]int{}
@@ -532,6 +532,9 @@ func TestVerifC01FreeRunning(t *testing.T) {
 				}
 				if br.IAT != iatNone && total[d]+n > 6000 {
 					n = 0
+				}
+				if br.IAT == iatParanoid && total[d]+n > 1500 {
+					n = 0 // paranoid mode sleeps after every (possibly tiny) write
 				}
 				sizes[d] = append(sizes[d], n)
 				pauses[d] = append(pauses[d], rapid.IntRange(0, 200).Draw(rt, "pause"))
@@ -645,4 +648,13 @@ func TestVerifC01FreeRunning(t *testing.T) {
 			return map[string]any{"driver": "free-running", "iat": br.IAT, "sizes_c2s": sizes[0], "sizes_s2c": sizes[1]}
 		})
 	})
+}
+
+// FuzzVerifC01Lockstep drives the lock-step property with Go's coverage-guided
+// fuzzer (the byte string is rapid's bit stream), thorough tier only.
+func FuzzVerifC01Lockstep(f *testing.F) {
+	vfSetup(f)
+	c := ev.For("C01")
+	c.Rule("fuzz-lockstep: the lock-step property driven by the native coverage-guided fuzzer through rapid.MakeFuzz (thorough tier)")
+	f.Fuzz(rapid.MakeFuzz(func(rt *rapid.T) { vfC01Case(rt, c) }))
 }
